@@ -125,6 +125,9 @@ let split_group (sizes : int list) (data : string) (limit : z) : group =
 
 let prof = Sys.getenv_opt "C15_PROF" <> None
 
+(* allocation-heavy (inductive numbers, megabyte lists): a larger minor heap and a lazier major GC *)
+let () = Gc.set { (Gc.get ()) with Gc.minor_heap_size = 1 lsl 20; Gc.space_overhead = 200 }
+
 let () =
   let tbl : (string, entry option) Hashtbl.t = Hashtbl.create 64 in
   let deser (bs : n list) : entry option =
@@ -172,6 +175,10 @@ let () =
          g := g';
          Printf.printf "rs %s %s\n" (match r with WOk -> "ok" | WTooBig -> "toobig") (gobs ())
        | ["T"] -> g := fst (wal_step crc !g WTick); Printf.printf "t %s\n" (gobs ())
+       | ["K"] -> Printf.printf "k %s\n" (gobs ())   (* AutoFile closed its file; the next use re-opens it: not a model step *)
+       | ["C"; tl] ->
+         g := fst (wal_step crc !g (WPrune (z_of_string tl)));
+         Printf.printf "c %d %d %s\n" (list_len 0 !g.g_files) (nat_len 0 (max_index !g)) (string_of_z (total_size !g))
        | ["F"] -> g := fst (wal_step crc !g WFlush); Printf.printf "f %s\n" (gobs ())
        | ["R"] -> g := fst (wal_step crc !g WRotate); Printf.printf "r %s\n" (gobs ())
        | ["G"] ->
@@ -195,10 +202,17 @@ let () =
        | "XS" :: h :: ign :: eds ->
          let grp = split_group !sizes (apply_edits !base eds) !g.g_limit in
          print_endline (search_obs grp h ign)
+       | "XG" :: h :: ign :: eds ->
+         (* the OnStart repair steps on the head file of the re-split group, then replay and search over the group *)
+         let grp = split_group !sizes (apply_edits !base eds) !g.g_limit in
+         let (grp', ok) = repair_head crc ser deser grp in
+         Printf.printf "rg %s %s | %s | %s\n" (if ok then "ok" else "err") (fp (str_of_nlist grp'.g_head))
+           (String.concat " " (List.map tok_obs (read_log crc deser false RGroup (group_stream grp' grp'.g_min))))
+           (search_obs grp' h ign)
        | "XR" :: eds ->
-         (* the file at the WAL's path afterwards is exactly what repair wrote (the destination is truncated);
-            then the second replay pass over it *)
-         let (out, ok) = repair crc ser deser (nlist_of_str (apply_edits !base eds)) in
+         (* OnStart's steps: backup by copy, repair in place; the file at the WAL's path afterwards is exactly what
+            repair wrote (the destination is truncated); then the second replay pass over it *)
+         let ((_, out), ok) = repair_onstart crc ser deser (nlist_of_str (apply_edits !base eds)) in
          Printf.printf "r %s %s | %s\n" (if ok then "ok" else "err") (fp (str_of_nlist out))
            (String.concat " " (List.map tok_obs (read_log crc deser false RGroup out)))
        | l -> failwith ("bad line: " ^ String.concat " " l));
